@@ -488,6 +488,8 @@ def sval(st, x):
     v = st.deref_all(x) if isinstance(x, Ptr) else x
     if isinstance(v, Agg) and len(v.fields) == 1 and isinstance(v.fields[0], BStr):
         v = v.fields[0]
+    if isinstance(v, Seq) and v.items and all(z3.is_expr(b) and z3.is_bv(b) and b.size() == 8 for b in v.items):
+        v = BStr(tuple(v.items), bv(len(v.items)))      # a byte array literal viewed as a slice
     if not isinstance(v, BStr):
         raise Unsupported(f'expected a byte string, got {v!r:.100}')
     return v
@@ -1977,6 +1979,7 @@ MODELS = [
     (r'<' + P + r'(?:result::Result|option::Option)<.*> as ' + P + r'iter::IntoIterator>::into_iter', M_res_into_iter, lambda it, ctx, args, st: isinstance(args[0], Enum)),
     (r'<(?:[iu](?:8|16|32|64|128|size)|f64|f32|bool) as ' + P + r'str::FromStr>::from_str', M_from_str_trait),
     (P + r'str::<impl str>::starts_with::<&str>', M_str_starts_with_str), (P + r'str::<impl str>::ends_with::<&str>', M_str_ends_with_str),
+    (P + r'slice::<impl \[u8\]>::starts_with', M_str_starts_with_str), (P + r'slice::<impl \[u8\]>::ends_with', M_str_ends_with_str),
     (ITER + r'partition::<.*>', M_partition),
     (ITER + r'for_each::<.*>', M_for_each), (ITER + r'rposition::<.*>', M_rposition),
     (r'<' + P + r'cmp::Ordering as ' + P + r'cmp::PartialEq>::(eq|ne)', M_ordering_eq),
